@@ -50,6 +50,8 @@ CHECKS = {
 }
 for c in CHECKS.values():
     c.setdefault("note", NOTE)
+    c["technique"] += "; thorough tier adds a coverage-guided campaign (atheris/libFuzzer over the same Hypothesis strategy and oracle) per generated facet"
+CHECKS["C12"]["technique"] += "; Hypothesis RuleBasedStateMachine over the progress tracker"
 
 def main():
     checks = []
@@ -71,7 +73,7 @@ def main():
     na = [{"property_id": p, "reason": "no check built; nothing is claimed for it"} for p in ALL if p not in CHECKS]
     m = {
         "version": 1,
-        "setup_cmd": "/venv/bin/python -c 'import hypothesis' 2>/dev/null || /venv/bin/pip install --no-index --find-links /opt/veriftools/wheels hypothesis",
+        "setup_cmd": "/venv/bin/python -c 'import hypothesis' 2>/dev/null || /venv/bin/pip install --no-index --find-links /opt/veriftools/wheels hypothesis; test -d /verif/.deps/atheris || /venv/bin/pip install -q --no-index --find-links /opt/veriftools/wheels --target /verif/.deps atheris || true",
         "hooks": {
             "guard": "ALCIDES_GENETICENGINE_VERIF",
             "enable": "no hooks are needed: every observation point is reached through public extension points (custom RandomSource, SearchRecorder, SearchBudget, MetaHandlerGenerator, GeneticStep, fitness function)",
@@ -79,7 +81,7 @@ def main():
             "source_commits": [],
             "add_only": True,
         },
-        "engines": [{"name": "vk", "path": "/verif/vk", "serves_properties": sorted(CHECKS), "kind_free_text": "Hypothesis-driven property-based testing with generated grammars (GrammarSpec), an independent reference model, scripted/recording random sources, exhaustive enumeration of random decisions, child-process differential runs and kill-point injection"}],
+        "engines": [{"name": "vk", "path": "/verif/vk", "serves_properties": sorted(CHECKS), "kind_free_text": "Hypothesis-driven property-based testing with generated grammars (GrammarSpec), an independent reference model, scripted/recording random sources, exhaustive enumeration of random decisions, child-process differential runs and kill-point injection; optional coverage-guided driver vk/fuzz.py (atheris)"}],
         "checks": checks,
         "not_applicable": na,
         "notes": "Entry point ./check <ID> quick|thorough|--replay <file>; exit 0 held / 1 VIOLATION / 2 harness error. Known findings: known_findings.json (open entries print KNOWN-FINDING, fixed entries suppress nothing).",
